@@ -97,7 +97,7 @@ Proof.
   destruct (p_tid (d_p s)) as [[a b]|]; [|apply R_refl].
   destruct (get_fault_handler (l_faults (d_cfg s)) c) as [fh|]; [|apply R_refl].
   destruct (fh =? FH_CANCEL).
-  - unfold notice_of_cancellation. mrun. cbn. right. split; reflexivity.
+  - unfold notice_of_cancellation. mrun. destruct (fh =? FH_ABANDON); cbn; right; split; reflexivity.
   - destruct (fh =? FH_ABANDON).
     + unfold reset_internal. mrun. cbn. left. reflexivity.
     + mrun. cbn. right. split; reflexivity.
